@@ -26,3 +26,5 @@ def run(ctx):
     from props import C01
     import premises
     premises.forest(ctx)
+    import rules as _rules
+    ctx.floor('R-SETTER', 'option setters', _rules.r_setters(ctx, ('writer::ArroyBuilder',)), 5)
